@@ -26,7 +26,8 @@ MANIFEST = {
             'matrix_prod on mixed lists, x**n for n<=6, chains (a*b)*c, a*(b*c), (a*b)/c; m=1 and m=3) are checked against '
             'the bounds composed along the operation tree; a reduced budget runs on m=7,t=3 and m=6,t=2 (PRSS on), and the secure '
             'fixed-point ARRAY operations (np_multiply, float array factor, matmul, outer, comparisons, np_trunc) run under the NumPy '
-            'interpreter in a subprocess at m=3 and m=1.',
+            'interpreter in a subprocess at m=3 and m=1; types with equal f and different l are used alternately call by call '
+            '(per-field caches), and ==/!= are run on 300+ equal/unequal pairs with -K 4 (plus -K 8, -K 40).',
     'note': 'Trusted: Coq kernel+vm_compute; scaled-integer model (field wrap-around excluded by in-range hypotheses; Shamir '
             'sharing/resharing abstracted: the simulator runs the real protocols); Python float round(b*2^f) is an input of the '
             'model. NOT proved in Coq: pow_bound, division/reciprocal (_rec/_norm Newton iteration), sin/cos: implementation-level '
@@ -131,9 +132,15 @@ def make_prog(l, f, cases, results):
     U = 2 ** f
 
     async def prog(mpc, mods, pid):
-        secfxp = mpc.SecFxp(l, f)
+        types = {}
         out = []
-        for (op, xs, pub) in cases:
+        for case in cases:
+            op, xs, pub = case[:3]
+            lf = tuple(case[3]) if len(case) > 3 else (l, f)     # per-case type: interleaved streams
+            if lf not in types:
+                types[lf] = mpc.SecFxp(*lf)
+            secfxp = types[lf]
+            U = 2 ** lf[1]
             try:
                 # genuinely shared operands (sender 0); all parties pass the same public placeholder value
                 ins = [mpc.input(secfxp(secfxp.field(x)) if x % U else secfxp(x // U), senders=0) for x in xs]
@@ -148,6 +155,8 @@ def make_prog(l, f, cases, results):
                     z = [ins[0] < ins[1]]
                 elif op == 'eq':
                     z = [ins[0] == ins[1]]
+                elif op == 'ne':
+                    z = [ins[0] != ins[1]]
                 elif op == 'ge':
                     z = [ins[0] >= ins[1]]
                 elif op == 'mul':
@@ -215,8 +224,8 @@ def check_case(ctx, cfg, l, f, case, res, stats):
     if op in ('add', 'sub', 'neg'):
         ex = {'add': lambda: X[0] + X[1], 'sub': lambda: X[0] - X[1], 'neg': lambda: -X[0]}[op]()
         return vals[0] == ex or fail('not-exact op=%s' % op, ex, 0, abs(vals[0] - ex))
-    if op in ('lt', 'eq', 'ge'):
-        ex = U * int({'lt': X[0] < X[1], 'eq': X[0] == X[1], 'ge': X[0] >= X[1]}[op])
+    if op in ('lt', 'eq', 'ge', 'ne'):
+        ex = U * int({'lt': X[0] < X[1], 'eq': X[0] == X[1], 'ge': X[0] >= X[1], 'ne': X[0] != X[1]}[op])
         return vals[0] == ex or fail('not-exact op=%s' % op, ex, 0, abs(vals[0] - ex))
     if op == 'mul':
         return within(vals[0], X[0] * X[1] / U, 1, 'mul-bound op=mul')
@@ -608,6 +617,94 @@ def numpy_stream(ctx, stats_all):
     ctx.log('%d NumPy array cases' % (ctx.evaluations - n0))
 
 
+def interleaved_stream(ctx, Sim, stats_all):
+    """Types with the SAME f and different l (and one with equal l+f) used ALTERNATELY call by call in one process:
+    per-field caches (e.g. the inverse of 2^n used by >> in trunc and by the whole-number shortcut of mul) must
+    not leak between fields."""
+    rng = ctx.rng
+    groups = [[(32, 16), (33, 16), (48, 16)], [(16, 8), (17, 8), (24, 8)], [(64, 32), (65, 32), (48, 16)]]
+    n0 = ctx.evaluations
+    for (m, t) in [(1, 0), (3, 1)]:
+        for group in groups:
+            per = {}
+            for (l, f) in group:
+                U = 2 ** f
+                cs = [c for c in gen_cases(rng, l, f, 60) if c[0] in ('mul', 'trunc', 'mul_float', 'pow', 'mul_int')
+                      or (c[0] in ('div', 'rec') and l <= 2 * f + 1)][:ctx.n(8, 24) if m == 1 else ctx.n(4, 10)]
+                cs += [('mul', [3 * U, 5], None), ('mul', [2 * U, -3 * U], None), ('trunc', [7 * U + 1], None)]
+                per[(l, f)] = cs
+            cases = []
+            for i in range(max(len(v) for v in per.values())):
+                for lf in group:                      # alternate the types call by call
+                    if i < len(per[lf]):
+                        cases.append(per[lf][i] + (lf,))
+            results = []
+            sim = Sim(m=m, t=t, seed=ctx.seed * 29 + m)
+            try:
+                sim.start()
+                res = H.run_limited(sim, make_prog(group[0][0], group[0][1], cases, results), 300,
+                                    idle_limit=8000, spins=(300 if m == 1 else 1))
+            finally:
+                H.quiet_close(sim)
+            if res is None or any(not isinstance(r, list) for r in res):
+                ctx.broken.append({'kind': 'run', 'what': 'interleaved program did not complete', 'cfg': [m, t], 'group': group,
+                                   'res': str(res)[:200]})
+                continue
+            stats = {}
+            for case, r in zip(cases, results):
+                l, f = case[3]
+                check_case(ctx, (m, t, False), l, f, case[:3], r, stats)
+                ctx.case({'interleaved': group, 'cfg': [m, t], 't': [l, f], 'case': [case[0], case[1], str(case[2])]},
+                         nontrivial=True, kind='m=%d interleaved %s' % (m, case[0]))
+    ctx.log('%d interleaved-type cases' % (ctx.evaluations - n0))
+
+
+def sec_param_stream(ctx, Sim):
+    """Non-default security parameter: == and != (exact per C02) on many equal and unequal pairs with -K 4, and
+    with -K 8 / -K 40 where the zero test is deterministic.  (For 8 <= K < l/2 and p = 3 mod 4 the implementation
+    uses a probabilistic zero test with one-sided error 2^-K on UNEQUAL operands by design; those combinations are
+    exercised on equal pairs only.)"""
+    rng = ctx.rng
+    n0 = ctx.evaluations
+    plan = [(1, 0, 4, (32, 16), ctx.n(320, 800)), (1, 0, 4, (64, 32), 60), (1, 0, 4, (16, 8), 60), (3, 1, 4, (32, 16), 40),
+            (1, 0, 8, (16, 8), 80), (1, 0, 8, (32, 16), 40), (1, 0, 40, (32, 16), 40)]
+    for (m, t, K, (l, f), npairs) in plan:
+        U = 2 ** f
+        R = 2 ** (l - 2)
+        probabilistic = 8 <= K < l / 2
+        cases = []
+        for i in range(npairs):
+            a = rng.choice([0, 1, -1, U, 3 * U + 1, rng.randint(-R + 1, R - 1), rng.randint(-4 * U, 4 * U)])
+            kind = i % 4
+            if kind == 0 or probabilistic:
+                b = a
+            elif kind == 1:
+                b = a + rng.choice([1, -1])
+            elif kind == 2:
+                b = -a if a else 1
+            else:
+                b = rng.randint(-R + 1, R - 1)
+            b = max(-R + 1, min(R - 1, b))
+            cases.append((rng.choice(['eq', 'ne']), [a, b], None))
+        results = []
+        sim = Sim(m=m, t=t, seed=ctx.seed * 31 + K, extra=('-K', str(K)))
+        try:
+            sim.start()
+            res = H.run_limited(sim, make_prog(l, f, cases, results), 400, idle_limit=8000, spins=(300 if m == 1 else 1))
+        finally:
+            H.quiet_close(sim)
+        if res is None or any(not isinstance(r, list) for r in res):
+            ctx.broken.append({'kind': 'run', 'what': 'sec_param program did not complete', 'K': K, 'cfg': [m, t], 'type': [l, f],
+                               'res': str(res)[:200]})
+            continue
+        stats = {}
+        for case, r in zip(cases, results):
+            ok = check_case(ctx, (m, t, False), l, f, case, r, stats)
+            ctx.case({'K': K, 'cfg': [m, t], 't': [l, f], 'case': [case[0], case[1]]}, nontrivial=case[1][0] != case[1][1],
+                     kind='K=%d %s %s' % (K, case[0], 'equal' if case[1][0] == case[1][1] else 'unequal'))
+    ctx.log('%d comparison cases with -K 4 / 8 / 40' % (ctx.evaluations - n0))
+
+
 def run(ctx):
     from lib.sim import Sim
     ok = ctx.build(['MPyC.Fxp']) and ctx.check_props()
@@ -678,6 +775,8 @@ def run(ctx):
     alias_stream(ctx, Sim)
     composition_stream(ctx, Sim, stats_all)
     wide_config_stream(ctx, Sim, stats_all)
+    interleaved_stream(ctx, Sim, stats_all)
+    sec_param_stream(ctx, Sim)
     numpy_stream(ctx, stats_all)
     ctx.extra['worst_error_over_bound'] = {k: stats_all[k] for k in sorted(stats_all)}
     if ok and exprs:
